@@ -48,7 +48,7 @@ class C30(C28):
         e = super().extra()
         e["explanation"] = ("Coq theorems (Props/C30.v): for every program of the modelled tick IR and every history of "
                             "batches the emitted 'tick DFIR state machines compute exactly the per-batch list functions "
-                            "(fold/reduce/count/max/min/first/last/limit/sort/enumerate/unique/chain/join/cross/anti_join/"
+                            "(fold/reduce/count/max/min/first/last/limit/sort/enumerate/unique/chain/join/cross/anti_join/or/reduce_watermark/"
                             "cross_singleton/keyed folds), 'tick state never leaks, defer_tick is a shift by exactly one tick, "
                             "a tick cycle reads exactly what the previous tick completed. Tied to the code by running %d tick "
                             "flows through the production embedded builder on explicit batch histories. Modelled subset: %d of "
